@@ -38,7 +38,7 @@ PosLine(b) ==   \* the line number in a "c:<digits>:" prefix, or -1
          IF r[2] = 3 \/ r[2] > Len(b) \/ b[r[2]] # 58 THEN -1 ELSE r[1]
 
 TokMatch(exp, got) ==
-    CASE exp[1] = "rtmsg" -> got[1] = "s" /\ LET l == PosLine(got[2]) IN l >= exp[2] /\ l <= exp[3]
+    CASE exp[1] = "rtmsg" -> got[1] = "s" /\ (exp[2] = 0 \/ LET l == PosLine(got[2]) IN l >= exp[2] /\ l <= exp[3])   \* position 0 = raised by host code: no position judged
       [] exp[1] = "anystr" -> got[1] = "s"
       [] OTHER -> exp[1] = got[1] /\ exp = got
 ListMatch(exp, got) == Len(exp) = Len(got) /\ \A i \in 1..Len(exp) : TokMatch(exp[i], got[i])
